@@ -177,8 +177,15 @@ def _solve_cli(cmd, text, timeout_s):
 def _work(job):
     idx, text, timeout_ms, expect_sat, rest_text, full_text = job
     t0 = time.time()
-    verdict, info = _solve_z3(text, timeout_ms, True)
+    # portfolio: z3 with a short budget (most obligations take < 0.5 s), then cvc5 (decides many of z3's unknowns at once),
+    # then z3 with the full budget, then z3 4.8
+    verdict, info = _solve_z3(text, min(2500, timeout_ms), True)
     solver = "z3-5.1(api)"
+    if verdict in ("unknown", "error") and not expect_sat:
+        v2, i2 = _solve_cli(["/usr/bin/cvc5", "--strings-exp", f"--tlimit={timeout_ms}"], "(set-logic ALL)\n" + text, timeout_ms / 1000)
+        if v2 == "unsat":
+            return idx, "unsat", i2, "cvc5-1.0.3", time.time() - t0
+        verdict, info = _solve_z3(text, timeout_ms, True)
     if verdict == "sat" and not expect_sat and rest_text is not None:
         # the goal does not follow from the hypotheses in its cone of influence; is the rest of the path condition satisfiable?
         rv, _ = _solve_z3(rest_text, min(timeout_ms, 5000), False)
